@@ -7,6 +7,9 @@ its height an unbounded integer; call i hands over the singleton {i}.
 Obligations (observable through the notify callback only):
  N1  a notification for height h is issued only if on_mempool(., h) and (on_block(., h) or
      start(h)) have already been received;
+ N2  when a mempool report arrives at the current block height (= the height of the latest block
+     report, or of start-up) every item handed over so far at a height <= it is in some
+     notification issued so far (block reports, by design, wait for the next mempool report);
  N3  after any call sequence, one further *empty* report from each source at a height H (any
      integer, both orders) leaves every item that was handed over at a height <= H inside some
      notification issued so far.  (An item handed over at a height above the current one is
@@ -54,6 +57,8 @@ def scenario(shape):
             bp_seen.append(h)
             _run(n.on_block({i}, h))
         calls.append('mp' if is_mp else 'bp')
+        if is_mp:
+            _n2(eng, notes, heights, h, bp_seen[-1], i, calls)
         for nh, _t in notes[before:]:
             eng.prove(z3_and([z3_or([nh == x for x in mp_seen]), z3_or([nh == x for x in bp_seen])]),
                       'N1: notification at a height not reported by both sources',
@@ -85,6 +90,21 @@ def scenario(shape):
                   'N3: item handed over at a height <= H is in no notification after both sources '
                   'reported at H',
                   {'signature': 'N3-lost-item', 'item': i, 'calls': calls, 'close': close_order})
+
+
+def _n2(eng, notes, heights, M, B, i, calls):
+    '''N2: a mempool report at the current block height (the height of the latest block report,
+    or of start-up) is the moment both sources have reported there: every item handed over so
+    far at a height <= that height must be in some notification now.'''
+    delivered = set()
+    for _nh, t in notes:
+        delivered |= t
+    pending = [j for j in range(len(heights)) if j not in delivered]
+    if not pending:
+        return
+    eng.prove(z3_or([z3_not(M == B)] + [z3_and([z3_not(heights[j] <= B) for j in pending])]),
+              'N2: both sources have reported at the current height but an item handed over at or below it '
+              'is in no notification', {'signature': 'N2-withheld', 'call': i, 'calls': list(calls)})
 
 
 def shapes(tier):
